@@ -1,4 +1,5 @@
-(* C17 lemmas about the model of Bundle.Compile's two checks. *)
+(* C17 lemmas about the model of Bundle.Compile's two checks (duplicate-path
+   rule as of /repo commit 11ec04b). *)
 From V Require Import Common.Base C17.WriteSM C17.Proofs.
 
 Definition ckey (o : outfile) : path := canon (o_path o).
@@ -22,85 +23,174 @@ Proof.
   intro H. apply Hn. apply in_map. exact H.
 Qed.
 
-(* the files kept by the duplicate-path loop: pairwise distinct canonical
-   paths, none already seen, all taken from the input list, in order *)
-Lemma dedupe_kept seen outs : forall kept errs,
-  dedupe seen outs = (kept, errs) ->
-  NoDup (map ckey kept) /\
-  (forall o, In o kept -> lookup seen (ckey o) = None /\ In o outs).
+Lemma NoDup_app_snoc {A} (l : list A) x : NoDup l -> ~ In x l -> NoDup (l ++ [x]).
 Proof.
-  revert seen. induction outs as [|o r IH]; intros seen kept errs E; simpl in E.
-  - inversion E; subst. split; [constructor | intros ? []].
-  - destruct (lookup seen (canon (o_path o))) as [e|] eqn:EL.
-    + destruct (o_merge e && o_merge o && content_eqb (o_data e) (o_data o)).
-      * destruct (IH _ _ _ E) as [ND H]. split; [exact ND|].
-        intros x Hx. destruct (H x Hx). split; [assumption | right; assumption].
-      * destruct (dedupe seen r) as [k2 e2] eqn:ED. inversion E; subst.
-        destruct (IH _ _ _ ED) as [ND H]. split; [exact ND|].
-        intros x Hx. destruct (H x Hx). split; [assumption | right; assumption].
-    + destruct (dedupe (upd seen (canon (o_path o)) o) r) as [k2 e2] eqn:ED. inversion E; subst.
-      destruct (IH _ _ _ ED) as [ND H]. split.
-      * simpl. constructor; [|exact ND].
-        intro Hin. apply in_map_iff in Hin as [x [Ex Hx]].
-        destruct (H x Hx) as [Hl _]. rewrite lookup_upd in Hl.
-        unfold ckey in Ex. rewrite <- Ex in Hl. rewrite path_eqb_refl in Hl. discriminate.
-      * intros x [Hx|Hx].
-        -- subst x. split; [exact EL | left; reflexivity].
-        -- destruct (H x Hx) as [Hl Hi]. split; [|right; exact Hi].
-           rewrite lookup_upd in Hl. destruct (path_eqb (canon (o_path o)) (ckey x)); [discriminate | exact Hl].
+  induction l as [|a l IH]; simpl; intros ND Hx.
+  - constructor; [intros [] | constructor].
+  - inversion ND as [|? ? Hn ND']; subst. constructor.
+    + intro H. apply in_app_or in H as [H|[H|[]]]; [contradiction|]. subst. apply Hx. left. reflexivity.
+    + apply IH; [exact ND'|]. intro H. apply Hx. right. exact H.
 Qed.
 
-(* if the loop reports no error, every linked file is represented by a kept
-   file (or an already seen one) with the same canonical path and the same
-   contents *)
-Lemma dedupe_represented seen outs : forall kept,
-  dedupe seen outs = (kept, []) ->
-  forall o, In o outs ->
-    (exists k, In k kept /\ ckey k = ckey o /\ o_data k = o_data o)
-    \/ (exists e, lookup seen (ckey o) = Some e /\ o_data e = o_data o).
+(* "the same file, or two mergeable files with equal contents" *)
+Definition mrel (a b : outfile) : Prop :=
+  a = b \/ (o_merge a = true /\ o_merge b = true /\ o_data a = o_data b).
+Lemma mrel_sym a b : mrel a b -> mrel b a.
+Proof. intros [H|[A [B C]]]; [left; auto | right; auto]. Qed.
+Lemma mrel_trans a b c : mrel a b -> mrel b c -> mrel a c.
 Proof.
-  revert seen. induction outs as [|a r IH]; intros seen kept E o Ho; simpl in E; [contradiction|].
-  destruct (lookup seen (canon (o_path a))) as [e|] eqn:EL.
-  - destruct (o_merge e && o_merge a && content_eqb (o_data e) (o_data a)) eqn:EM.
-    + destruct Ho as [Ho|Ho].
-      * subst a. right. exists e. split; [exact EL|].
-        apply andb_true_iff in EM as [_ EM]. apply content_eqb_eq in EM. exact EM.
-      * exact (IH _ _ E o Ho).
-    + destruct (dedupe seen r) as [k2 e2]. inversion E.
-  - destruct (dedupe (upd seen (canon (o_path a)) a) r) as [k2 e2] eqn:ED. inversion E; subst.
-    destruct Ho as [Ho|Ho].
-    + subst a. left. exists o. split; [left; reflexivity | split; reflexivity].
-    + destruct (IH _ _ ED o Ho) as [[k [Hk [Ek Dk]]]|[e [He De]]].
-      * left. exists k. split; [right; exact Hk | split; assumption].
-      * rewrite lookup_upd in He. destruct (path_eqb (canon (o_path a)) (ckey o)) eqn:EP.
-        -- inversion He; subst e. apply path_eqb_eq in EP.
-           left. exists a. split; [left; reflexivity | split; [exact EP | exact De]].
-        -- right. exists e. split; assumption.
+  intros [H1|[A1 [B1 C1]]] [H2|[A2 [B2 C2]]]; subst.
+  - left. reflexivity.
+  - right. auto.
+  - right. auto.
+  - right. repeat split; try assumption. congruence.
+Qed.
+Lemma mrel_data a b : mrel a b -> o_data a = o_data b.
+Proof. intros [H|[_ [_ C]]]; [subst; reflexivity | exact C]. Qed.
+
+(* files with one canonical path are pairwise mergeable-and-equal *)
+Definition coherent (l : list outfile) : Prop :=
+  forall f g, In f l -> In g l -> ckey f = ckey g -> mrel f g.
+
+Lemma find_key_some prev o e :
+  find (fun f => path_eqb (canon (o_path f)) (canon (o_path o))) prev = Some e -> In e prev /\ ckey e = ckey o.
+Proof. intro H. apply find_some in H as [H1 H2]. apply path_eqb_eq in H2. auto. Qed.
+Lemma find_key_none prev o :
+  find (fun f => path_eqb (canon (o_path f)) (canon (o_path o))) prev = None ->
+  forall f, In f prev -> ckey f <> ckey o.
+Proof.
+  intros H f Hf E. pose proof (find_none _ _ H f Hf) as F. simpl in F.
+  unfold ckey in E. rewrite E, path_eqb_refl in F. discriminate.
 Qed.
 
-Lemma lookup_nil {V} p : @lookup V [] p = None.
-Proof. reflexivity. Qed.
+Lemma coherent_snoc_new prev o :
+  coherent prev -> (forall f, In f prev -> ckey f <> ckey o) -> coherent (prev ++ [o]).
+Proof.
+  intros HC HN f g Hf Hg E. apply in_app_or in Hf as [Hf|[Hf|[]]], Hg as [Hg|[Hg|[]]]; subst.
+  - apply HC; assumption.
+  - exfalso. exact (HN f Hf E).
+  - exfalso. apply (HN g Hg). symmetry. exact E.
+  - left. reflexivity.
+Qed.
+Lemma coherent_snoc_merged prev o e :
+  coherent prev -> In e prev -> ckey e = ckey o -> mrel e o -> coherent (prev ++ [o]).
+Proof.
+  intros HC He EK HM f g Hf Hg E. apply in_app_or in Hf as [Hf|[Hf|[]]], Hg as [Hg|[Hg|[]]]; subst.
+  - apply HC; assumption.
+  - apply (mrel_trans f e g); [apply HC; try assumption; congruence | exact HM].
+  - apply (mrel_trans f e g); [apply mrel_sym; exact HM | apply HC; try assumption; congruence].
+  - left. reflexivity.
+Qed.
 
-(* two linked files with one canonical path and different contents are an error *)
+(* the loop, from any coherent list of files kept so far with distinct paths *)
+Lemma dedupe_facts outs : forall prev kept errs,
+  coherent prev -> NoDup (map o_path prev) ->
+  dedupe prev outs = (kept, errs) ->
+  NoDup (map o_path (prev ++ kept)) /\
+  (forall o, In o kept -> In o outs) /\
+  (errs = [] ->
+     coherent (prev ++ kept) /\
+     forall o, In o outs -> exists k, In k (prev ++ kept) /\ o_path k = o_path o /\ mrel k o).
+Proof.
+  induction outs as [|o r IH]; intros prev kept errs HC ND E; simpl in E.
+  - injection E as E1 E2. subst. rewrite app_nil_r. repeat split; try assumption; intros ? [].
+  - destruct (find (fun f => path_eqb (canon (o_path f)) (canon (o_path o))) prev) as [e|] eqn:EF.
+    + destruct (find_key_some _ _ _ EF) as [He EK].
+      destruct (o_merge e && o_merge o && content_eqb (o_data e) (o_data o)) eqn:EM.
+      * assert (HM : mrel e o).
+        { apply andb_true_iff in EM as [EM1 EM]. apply andb_true_iff in EM1 as [M1 M2].
+          apply content_eqb_eq in EM. right. auto. }
+        destruct (mem (o_path o) (map o_path prev)) eqn:EX.
+        -- (* an exact duplicate of a kept file: filtered out *)
+           destruct (IH _ _ _ HC ND E) as [A [B C]]. repeat split; try assumption.
+           ++ intros x Hx. right. apply B. exact Hx.
+           ++ apply C. assumption.
+           ++ intros x [Hx|Hx]; [|apply C; assumption]. subst x.
+              apply mem_In in EX. apply in_map_iff in EX as [g [Eg Hg]].
+              exists g. split; [apply in_or_app; left; exact Hg|]. split; [exact Eg|].
+              apply (mrel_trans g e o); [|exact HM]. apply HC; try assumption.
+              unfold ckey. rewrite Eg. symmetry. exact EK.
+        -- (* a case variant: kept as well *)
+           destruct (dedupe (prev ++ [o]) r) as [k2 e2] eqn:ED. injection E as E1 E2. subst kept errs.
+           assert (HC' : coherent (prev ++ [o])) by (eapply coherent_snoc_merged; eassumption).
+           assert (ND' : NoDup (map o_path (prev ++ [o]))).
+           { rewrite map_app. simpl. apply NoDup_app_snoc; [exact ND|]. apply mem_false. exact EX. }
+           destruct (IH _ _ _ HC' ND' ED) as [A [B C]]. rewrite <- app_assoc in A, C. simpl in A, C.
+           repeat split; try assumption.
+           ++ intros x [Hx|Hx]; [left; exact Hx | right; apply B; exact Hx].
+           ++ apply C. assumption.
+           ++ intros x [Hx|Hx]; [|apply C; assumption]. subst x.
+              exists o. split; [apply in_or_app; right; left; reflexivity|]. split; [reflexivity | left; reflexivity].
+      * destruct (dedupe prev r) as [k2 e2] eqn:ED. injection E as E1 E2. subst kept errs.
+        destruct (IH _ _ _ HC ND ED) as [A [B _]]. repeat split; try assumption; try discriminate.
+        intros x Hx. right. apply B. exact Hx.
+    + destruct (dedupe (prev ++ [o]) r) as [k2 e2] eqn:ED. injection E as E1 E2. subst kept errs.
+      pose proof (find_key_none _ _ EF) as HN.
+      assert (HC' : coherent (prev ++ [o])) by (apply coherent_snoc_new; assumption).
+      assert (ND' : NoDup (map o_path (prev ++ [o]))).
+      { rewrite map_app. simpl. apply NoDup_app_snoc; [exact ND|].
+        intro Hin. apply in_map_iff in Hin as [g [Eg Hg]]. apply (HN g Hg). unfold ckey. rewrite Eg. reflexivity. }
+      destruct (IH _ _ _ HC' ND' ED) as [A [B C]]. rewrite <- app_assoc in A, C. simpl in A, C.
+      repeat split; try assumption.
+      * intros x [Hx|Hx]; [left; exact Hx | right; apply B; exact Hx].
+      * apply C. assumption.
+      * intros x [Hx|Hx]; [|apply C; assumption]. subst x.
+        exists o. split; [apply in_or_app; right; left; reflexivity|]. split; [reflexivity | left; reflexivity].
+Qed.
+
+Lemma coherent_nil : coherent [].
+Proof. intros ? ? []. Qed.
+
+(* from the empty list *)
+Lemma dedupe_kept outs kept errs :
+  dedupe [] outs = (kept, errs) -> NoDup (map o_path kept) /\ (forall o, In o kept -> In o outs).
+Proof.
+  intro E. destruct (dedupe_facts outs [] kept errs coherent_nil (NoDup_nil _) E) as [A [B _]]. auto.
+Qed.
+
+(* no error: every linked file is represented by a kept file with exactly its
+   path (since 11ec04b) that is the file itself or was merged with it *)
+Lemma dedupe_represented outs kept :
+  dedupe [] outs = (kept, []) ->
+  forall o, In o outs -> exists k, In k kept /\ o_path k = o_path o /\ mrel k o.
+Proof.
+  intros E. destruct (dedupe_facts outs [] kept [] coherent_nil (NoDup_nil _) E) as [_ [_ C]].
+  destruct (C eq_refl) as [_ H]. exact H.
+Qed.
+
+(* two linked files with one canonical path: the same file, or both mergeable with equal contents *)
+Lemma dedupe_mrel outs kept :
+  dedupe [] outs = (kept, []) ->
+  forall o1 o2, In o1 outs -> In o2 outs -> ckey o1 = ckey o2 -> mrel o1 o2.
+Proof.
+  intros E o1 o2 H1 H2 EK.
+  destruct (dedupe_facts outs [] kept [] coherent_nil (NoDup_nil _) E) as [_ [_ C]].
+  destruct (C eq_refl) as [HC HR]. simpl in HC, HR.
+  destruct (HR o1 H1) as [k1 [I1 [P1 M1]]]. destruct (HR o2 H2) as [k2 [I2 [P2 M2]]].
+  assert (K : mrel k1 k2). { apply HC; try assumption. unfold ckey in *. rewrite P1, P2. exact EK. }
+  apply (mrel_trans o1 k1 o2); [apply mrel_sym; exact M1|]. apply (mrel_trans k1 k2 o2); assumption.
+Qed.
+
 Lemma dedupe_single_valued outs kept :
   dedupe [] outs = (kept, []) ->
   forall o1 o2, In o1 outs -> In o2 outs -> ckey o1 = ckey o2 -> o_data o1 = o_data o2.
+Proof. intros E o1 o2 H1 H2 EK. apply mrel_data. eapply dedupe_mrel; eassumption. Qed.
+
+Lemma dedupe_two_on_one_path outs kept :
+  dedupe [] outs = (kept, []) ->
+  forall o1 o2, In o1 outs -> In o2 outs -> o1 <> o2 -> ckey o1 = ckey o2 ->
+    o_merge o1 = true /\ o_merge o2 = true /\ o_data o1 = o_data o2.
 Proof.
-  intros E o1 o2 H1 H2 EK.
-  destruct (dedupe_kept _ _ _ _ E) as [ND _].
-  destruct (dedupe_represented _ _ _ E o1 H1) as [[k1 [I1 [K1 D1]]]|[e [He _]]]; [|simpl in He; discriminate].
-  destruct (dedupe_represented _ _ _ E o2 H2) as [[k2 [I2 [K2 D2]]]|[e [He _]]]; [|simpl in He; discriminate].
-  assert (k1 = k2) by (apply (NoDup_map_eq ckey kept); try assumption; congruence).
-  subst. congruence.
+  intros E o1 o2 H1 H2 Hne EK. destruct (dedupe_mrel _ _ E o1 o2 H1 H2 EK) as [H|H]; [contradiction | exact H].
 Qed.
 
 (* what Compile returns when it leaves no error in the log (directory mode) *)
 Lemma compile_ok_facts opt oc kept :
   cancel_early oc = false -> to_stdout opt = false ->
   compile opt oc = (kept, false) ->
-  NoDup (map ckey kept) /\
+  NoDup (map o_path kept) /\
   (forall o, In o kept -> In o (linked oc)) /\
-  (forall o, In o (linked oc) -> exists k, In k kept /\ ckey k = ckey o /\ o_data k = o_data o) /\
+  (forall o, In o (linked oc) -> exists k, In k kept /\ o_path k = o_path o /\ o_data k = o_data o) /\
   (forall o1 o2, In o1 (linked oc) -> In o2 (linked oc) -> ckey o1 = ckey o2 -> o_data o1 = o_data o2) /\
   (effective_allow opt = false -> forall o, In o (linked oc) -> ~ In (ckey o) (map canon (inputs oc))) /\
   link_err oc = false.
@@ -108,75 +198,19 @@ Proof.
   intros HC HS. unfold compile. rewrite HC, HS.
   destruct (dedupe [] (linked oc)) as [k e2] eqn:ED. intro E. injection E as E1 E2. subst k.
   apply orb_false_iff in E2 as [E2 E3]. apply orb_false_iff in E2 as [E2 E4].
-  destruct e2; [|discriminate].
-  destruct (dedupe_kept _ _ _ _ ED) as [ND HK].
+  destruct e2; [|simpl in E3; discriminate].
+  destruct (dedupe_kept _ _ _ ED) as [ND HK].
   repeat split.
   - exact ND.
-  - intros o Ho. apply HK. exact Ho.
-  - intros o Ho. destruct (dedupe_represented _ _ _ ED o Ho) as [H|[e [He _]]]; [exact H | simpl in He; discriminate].
+  - exact HK.
+  - intros o Ho. destruct (dedupe_represented _ _ ED o Ho) as [k [Hk [Pk Mk]]].
+    exists k. repeat split; try assumption. apply mrel_data. exact Mk.
   - exact (dedupe_single_valued _ _ ED).
   - intros HA o Ho Hin. rewrite HA in E4. unfold overwrite_refused in E4.
     destruct (filter (fun o0 => mem (canon (o_path o0)) (map canon (inputs oc))) (linked oc)) eqn:EF; [|simpl in E4; discriminate].
     assert (In o []) as [].
     rewrite <- EF. apply filter_In. split; [exact Ho|]. apply mem_In. exact Hin.
   - exact E2.
-Qed.
-
-(* distinct canonical paths are distinct paths *)
-Lemma NoDup_ckey_paths l : NoDup (map ckey l) -> NoDup (map o_path l).
-Proof.
-  unfold ckey. intro H. rewrite <- (map_map o_path canon) in H. apply NoDup_map_inv' in H. exact H.
-Qed.
-
-(* ---------- the duplicate-path rule, in full ---------- *)
-(* if the loop reports no error, every linked file either is kept itself or
-   was merged into a kept (or already seen) file with the same canonical path:
-   both mergeable, equal contents *)
-Lemma dedupe_represented_strong seen outs : forall kept,
-  dedupe seen outs = (kept, []) ->
-  forall o, In o outs ->
-    (exists k, In k kept /\ ckey k = ckey o /\
-               (k = o \/ (o_merge k = true /\ o_merge o = true /\ o_data k = o_data o)))
-    \/ (exists e, lookup seen (ckey o) = Some e /\ o_merge e = true /\ o_merge o = true /\ o_data e = o_data o).
-Proof.
-  revert seen. induction outs as [|a r IH]; intros seen kept E o Ho; simpl in E; [contradiction|].
-  destruct (lookup seen (canon (o_path a))) as [e|] eqn:EL.
-  - destruct (o_merge e && o_merge a && content_eqb (o_data e) (o_data a)) eqn:EM.
-    + destruct Ho as [Ho|Ho].
-      * subst a. right. exists e. split; [exact EL|].
-        apply andb_true_iff in EM as [EM1 EM]. apply andb_true_iff in EM1 as [M1 M2].
-        apply content_eqb_eq in EM. auto.
-      * exact (IH _ _ E o Ho).
-    + destruct (dedupe seen r) as [k2 e2]. inversion E.
-  - destruct (dedupe (upd seen (canon (o_path a)) a) r) as [k2 e2] eqn:ED. inversion E; subst.
-    destruct Ho as [Ho|Ho].
-    + subst a. left. exists o. split; [left; reflexivity | split; [reflexivity | left; reflexivity]].
-    + destruct (IH _ _ ED o Ho) as [[k [Hk [Ek Dk]]]|[e [He De]]].
-      * left. exists k. split; [right; exact Hk | split; assumption].
-      * rewrite lookup_upd in He. destruct (path_eqb (canon (o_path a)) (ckey o)) eqn:EP.
-        -- inversion He; subst e. apply path_eqb_eq in EP.
-           left. exists a. split; [left; reflexivity | split; [exact EP | right; exact De]].
-        -- right. exists e. split; assumption.
-Qed.
-
-(* two different linked files with one canonical path (equal cleaned paths,
-   case variants, slash variants) pass only if both may be merged and their
-   contents are equal; otherwise Compile reports an error *)
-Lemma dedupe_two_on_one_path outs kept :
-  dedupe [] outs = (kept, []) ->
-  forall o1 o2, In o1 outs -> In o2 outs -> o1 <> o2 -> ckey o1 = ckey o2 ->
-    o_merge o1 = true /\ o_merge o2 = true /\ o_data o1 = o_data o2.
-Proof.
-  intros E o1 o2 H1 H2 Hne EK.
-  destruct (dedupe_kept _ _ _ _ E) as [ND _].
-  destruct (dedupe_represented_strong _ _ _ E o1 H1) as [[k1 [I1 [K1 D1]]]|[e [He _]]]; [|simpl in He; discriminate].
-  destruct (dedupe_represented_strong _ _ _ E o2 H2) as [[k2 [I2 [K2 D2]]]|[e [He _]]]; [|simpl in He; discriminate].
-  assert (k1 = k2) by (apply (NoDup_map_eq ckey kept); try assumption; congruence). subst k2.
-  destruct D1 as [D1|[A1 [B1 C1]]], D2 as [D2|[A2 [B2 C2]]].
-  - exfalso. apply Hne. congruence.
-  - subst k1. auto.
-  - subst k1. auto.
-  - repeat split; try assumption. congruence.
 Qed.
 
 Lemma compile_two_on_one_path opt oc kept :
@@ -188,4 +222,14 @@ Proof.
   destruct (dedupe [] (linked oc)) as [k e2] eqn:ED. intro E. injection E as E1 E2. subst k.
   apply orb_false_iff in E2 as [_ E3]. destruct e2; [|simpl in E3; discriminate].
   exact (dedupe_two_on_one_path _ _ ED).
+Qed.
+
+(* since 11ec04b: when the loop reports no error, the exact path of every
+   linked file is the path of a kept file (with the same contents) *)
+Lemma dedupe_keeps_exact_path_all outs kept :
+  dedupe [] outs = (kept, []) ->
+  forall o, In o outs -> exists k, In k kept /\ o_path k = o_path o /\ o_data k = o_data o.
+Proof.
+  intros E o Ho. destruct (dedupe_represented _ _ E o Ho) as [k [Hk [Pk Mk]]].
+  exists k. repeat split; try assumption. apply mrel_data. exact Mk.
 Qed.
